@@ -184,6 +184,24 @@ class LimitObserver:
         elif len(opens) > self.max_open:
             self.max_open = len(opens)
 
+    def on_quiescent(self):
+        """At a quiescent point nobody is part-way through closing evicted connections
+        (unless a close is visibly in progress): every open stream counts, also those of
+        connections the pool has dropped without closing them."""
+        n = self.n
+        if n is None or "open" in self.flagged:
+            return
+        w = self.w
+        if any(x.state == "closing" for x in w.wires):
+            return
+        opens = [x.id for x in w.wires if x.state == "open"]
+        if len(opens) > n:
+            owned = reachable_wires(self.pool.connections)
+            self.flagged.add("open")
+            w.violate(self.prop, "more-open-streams-than-max:dropped-but-not-closed",
+                      {"n": n, "open": opens, "not_pooled": [i for i in opens if i not in owned],
+                       "info": [c.info() for c in self.pool.connections]})
+
     def post(self, res):
         res.info["max_conns"] = self.max_conns
         res.info["max_open"] = self.max_open
